@@ -248,4 +248,58 @@ let spec input obs =
         | _ -> fs := edit good !fs w; edited := true) c.ops;
     !verdict
 
-let () = run_driver model spec
+(* ---- main: the cases are spread over worker processes (the long-chain cases cost about half a second
+   each in the extracted exact arithmetic); every worker is this same program on a slice ---- *)
+let read_lines file =
+  let ic = open_in file in
+  let acc = ref [] in
+  (try while true do acc := input_line ic :: !acc done with End_of_file -> ());
+  close_in ic; L.rev !acc
+
+let append_file oc file =
+  let ic = open_in_bin file in
+  let buf = Bytes.create 65536 in
+  let rec go () = let n = input ic buf 0 65536 in if n > 0 then (output oc buf 0 n; go ()) in
+  go (); close_in ic
+
+let line_id l = match S.index_opt l '\t' with Some i -> S.sub l 0 i | None -> l
+
+let () =
+  match Sys.getenv_opt "C17_CHILD" with
+  | Some _ -> run_driver model spec
+  | None ->
+    let cases = Sys.argv.(1) and impl = Sys.argv.(2) and mout = Sys.argv.(3) and sout = Sys.argv.(4) in
+    let lines = Array.of_list (read_lines cases) in
+    let n = Array.length lines in
+    let workers = try int_of_string (Sys.getenv "C17_WORKERS") with _ -> 8 in
+    let k = max 1 (min workers (n / 20 + 1)) in
+    if k = 1 then run_driver model spec else begin
+      let part f i = Printf.sprintf "%s.part%d" f i in
+      let where = Hashtbl.create (2 * n + 1) in
+      let ocs = Array.init k (fun i -> open_out (part cases i)) in
+      Array.iteri (fun j l -> Hashtbl.replace where (line_id l) (j mod k);
+                    output_string ocs.(j mod k) l; output_char ocs.(j mod k) '\n') lines;
+      Array.iter close_out ocs;
+      let iocs = Array.init k (fun i -> open_out (part impl i)) in
+      L.iter (fun l -> match Hashtbl.find_opt where (line_id l) with
+          | Some i -> output_string iocs.(i) l; output_char iocs.(i) '\n'
+          | None -> ()) (read_lines impl);
+      Array.iter close_out iocs;
+      Unix.putenv "C17_CHILD" "1";
+      let self = Sys.executable_name in
+      let pids = Array.init k (fun i ->
+          Unix.create_process self [| self; part cases i; part impl i; part mout i; part sout i |]
+            Unix.stdin Unix.stdout Unix.stderr) in
+      let failed = ref false in
+      Array.iter (fun pid -> match Unix.waitpid [] pid with
+          | (_, Unix.WEXITED 0) -> ()
+          | _ -> failed := true) pids;
+      let mo = open_out_bin mout and so = open_out_bin sout in
+      for i = 0 to k - 1 do
+        (try append_file mo (part mout i) with _ -> failed := true);
+        (try append_file so (part sout i) with _ -> failed := true);
+        L.iter (fun f -> try Sys.remove f with _ -> ()) [part cases i; part impl i; part mout i; part sout i]
+      done;
+      close_out mo; close_out so;
+      if !failed then (prerr_endline "c17_driver: a worker failed"; exit 2)
+    end
